@@ -98,6 +98,26 @@ func runCLI(c Case) string {
 		if mode[5] == 'E' {
 			args = append(args, empty)
 		}
+	case strings.HasPrefix(mode, "filesX:"):
+		// filesX:k:j  k pieces with a DIRECTORY named as an input before piece j (os.Open succeeds, every Read
+		// fails): the input could not be read completely - what was read before it is processed, the rest is not,
+		// and the exit status is non-zero
+		var k, j int
+		fmt.Sscanf(mode[7:], "%d:%d", &k, &j)
+		bad := filepath.Join(dir, "unreadable.pql")
+		os.Mkdir(bad, 0o755)
+		for i := 0; i <= k; i++ {
+			if i == j {
+				args = append(args, bad)
+			}
+			if i == k {
+				break
+			}
+			a, b := len(input)*i/k, len(input)*(i+1)/k
+			p := filepath.Join(dir, fmt.Sprintf("in%d.pql", i))
+			os.WriteFile(p, []byte(input[a:b]), 0o644)
+			args = append(args, p)
+		}
 	case strings.HasPrefix(mode, "files:"):
 		var k int
 		fmt.Sscanf(mode, "files:%d", &k)
@@ -209,6 +229,15 @@ func genCLICases(tier string, emit func(op string, fields ...string)) {
 	}
 	for i := 0; i < n; i++ {
 		emit("CLI", hexs(genScript()), pick(modes))
+	}
+	for _, s := range []string{"let n = 5;\nT | take n;\nT | where a > n | count\n", "T | count;\nU | count;\n", "T | count", "let x = 1;\nA | where a == x;\nB | where b == x\n", "T | bogus;\nU | count;\nV"} {
+		for _, k := range []string{"filesX:0:0", "filesX:1:0", "filesX:1:1", "filesX:2:1", "filesX:3:0", "filesX:3:1", "filesX:3:2", "filesX:3:3"} {
+			emit("CLI", hexs(s), k)
+		}
+	}
+	for i := 0; i < n/5; i++ {
+		k := 1 + rng.Intn(4)
+		emit("CLI", hexs(genScript()), fmt.Sprintf("filesX:%d:%d", k, rng.Intn(k+1)))
 	}
 	for _, s := range []string{"let n = 5;\nT | take n;\nT | where a > n | count\n", "T | count;\nU | count;\n", "T | count"} {
 		for _, k := range []string{"filesM:1", "filesM:99", "filesM:100", "filesM:150"} {
